@@ -128,6 +128,13 @@ theorem any_partition {α : Type} (l : List α) (f g : α → Bool) :
       simp only [hf', List.any_cons, ih, Bool.not_false, if_true]
       cases g x <;> simp
 
+/-- what a sync preserves, without the `NoShrink` bookkeeping of the code before the repairs -/
+structure SyncFileOutX (s s' : Fs) (q : Path) : Prop where
+  noRN : NoRN s'.pending
+  file : ∀ p, fileExists s' p = fileExists s p
+  dir : ∀ p, dirExists s' p = dirExists s p
+  inc : ∀ p, inc s' p = inc s p
+
 structure SyncFileOut (s s' : Fs) (q : Path) : Prop where
   noRN : NoRN s'.pending
   file : ∀ p, fileExists s' p = fileExists s p
@@ -143,9 +150,10 @@ theorem isDataOpOf_neutral {q p : Path} {o : POp} (hqp : q ≠ p) (h : isDataOpO
 theorem not_isDataOpOf_neutral {q : Path} {o : POp} (h : isDataOpOf q o = false) : neutralFor q o = true := by
   cases o <;> simp [isDataOpOf] at h <;> simp [neutralFor] <;> exact h
 
-theorem syncFile_views {s s' : Fs} {q : Path} (hn : NoRN s.pending)
-    (hm : ∀ p, NoShrink p ((alookup p s.files).getD []) s.pending)
-    (hs : syncFile s q = .ok s') : SyncFileOut s s' q := by
+theorem syncFile_viewsX {s s' : Fs} {q : Path} (hn : NoRN s.pending)
+    (hs : syncFile s q = .ok s') : SyncFileOutX s s' q ∧
+      ((∀ p, NoShrink p ((alookup p s.files).getD []) s.pending) →
+        ∀ p, NoShrink p ((alookup p s'.files).getD []) s'.pending) := by
   unfold syncFile at hs
   split at hs
   · cases hs
@@ -194,7 +202,7 @@ theorem syncFile_views {s s' : Fs} {q : Path} (hn : NoRN s.pending)
       intro x hx
       have : x = POp.createDir p := by simpa using hx
       subst this; rfl
-    refine ⟨hn', ?_, ?_, ?_, ?_⟩
+    refine ⟨⟨hn', ?_, ?_, ?_⟩, fun hm => ?_⟩
     · intro p
       rw [fileExists_noRN s' hn', fileExists_noRN s hn, hpend, hcf]
       by_cases hp : p = q
@@ -246,6 +254,12 @@ theorem syncFile_views {s s' : Fs} {q : Path} (hn : NoRN s.pending)
         intro o _ hf
         have : isDataOpOf q o = true := by simpa using hf
         exact isDataOpOf_neutral (Ne.symm hp) this
+
+theorem syncFile_views {s s' : Fs} {q : Path} (hn : NoRN s.pending)
+    (hm : ∀ p, NoShrink p ((alookup p s.files).getD []) s.pending)
+    (hs : syncFile s q = .ok s') : SyncFileOut s s' q :=
+  have x := syncFile_viewsX hn hs
+  ⟨x.1.noRN, x.1.file, x.1.dir, x.1.inc, x.2 hm⟩
 
 /-! ### `sync_dir` -/
 
@@ -366,9 +380,10 @@ theorem isDirOpOf_create {d : Path} {o : POp} (hn : isNs o = true) (h : isDirOpO
 theorem isCreate_neutral (p : Path) {o : POp} (h : isCreate o = true) : neutralFor p o = true := by
   cases o <;> simp [isCreate] at h <;> rfl
 
-theorem syncDir_views {s s' : Fs} {d : Path} (hn : NoRN s.pending)
-    (hm : ∀ p, NoShrink p ((alookup p s.files).getD []) s.pending)
-    (hs : syncDir s d = .ok s') : SyncFileOut s s' d := by
+theorem syncDir_viewsX {s s' : Fs} {d : Path} (hn : NoRN s.pending)
+    (hs : syncDir s d = .ok s') : SyncFileOutX s s' d ∧
+      ((∀ p, NoShrink p ((alookup p s.files).getD []) s.pending) →
+        ∀ p, NoShrink p ((alookup p s'.files).getD []) s'.pending) := by
   unfold syncDir at hs
   split at hs
   · cases hs
@@ -392,7 +407,7 @@ theorem syncDir_views {s s' : Fs} {d : Path} (hn : NoRN s.pending)
       intro p o ho hf
       have : isDirOpOf d o = true := by simpa using hf
       exact isCreate_neutral p (isDirOpOf_create (hn o ho) this)
-    refine ⟨hn', ?_, ?_, ?_, ?_⟩
+    refine ⟨⟨hn', ?_, ?_, ?_⟩, fun hm => ?_⟩
     · intro p
       rw [fileExists_noRN s' hn', fileExists_noRN s hn, hpend, hsome]
       unfold hasCreateFile
@@ -410,5 +425,11 @@ theorem syncDir_views {s s' : Fs} {d : Path} (hn : NoRN s.pending)
     · intro p
       rw [hpend, hget]
       exact noShrink_filter p _ s.pending _ (hneutral p) (hm p)
+
+theorem syncDir_views {s s' : Fs} {d : Path} (hn : NoRN s.pending)
+    (hm : ∀ p, NoShrink p ((alookup p s.files).getD []) s.pending)
+    (hs : syncDir s d = .ok s') : SyncFileOut s s' d :=
+  have x := syncDir_viewsX hn hs
+  ⟨x.1.noRN, x.1.file, x.1.dir, x.1.inc, x.2 hm⟩
 
 end TV.Fs
